@@ -40,7 +40,7 @@ P2A == <<"[1 2 3]", "'(1 2 3)", "(rest [0 1 2 3])", "(subvec [1 2 3 4 5] 0 3)", 
          "(vec '(1 2 3))", "(concat [1 2] [3])", "{:a 1 :c 3}", "#{:a :c}", "(conj [1 2] 3)", "(cons 1 '(2 3))",
          \* EMPTY collections made along different construction paths
          "(set nil)", "(set [])", "(hash-set)", "(hash-map)", "(dissoc {:a 1} :a)", "(rest [1])", "(seq [])">>
-P2B == <<"[4]", "4", "'(5 6)", ":a", "0", "{:b 2}", "nil", "[:c 7]", "1", "inc">>
+P2B == <<":a", "4", "[4]", "'(5 6)", "0", "{:b 2}", "nil", "[:c 7]", "1", "inc">>
 ASSUME TLCSet(6, Norm([k \in 1..Len(P2A) |-> LET r == Ev(Parse(P2A[k]), 1, Base) IN
                                                IF r.k = "val" THEN r.v ELSE Assert(FALSE, <<"P2A", k, r.k>>)]))
 ASSUME TLCSet(7, Norm([k \in 1..Len(P2B) |-> LET r == Ev(Parse(P2B[k]), 1, Base) IN
